@@ -300,6 +300,8 @@ pub enum Op {
     NoVerifyInDropClone(Inst),
     /// `make_ref` on an instance (lends a value; irrelevant for counts)
     MakeRef(Inst),
+    /// `inst.make_ref(inst.clone())`: a clone that is owned by the instance's own value chain
+    MakeRefClone(Inst),
 }
 
 #[derive(Clone, Debug, PartialEq, Eq, Hash)]
@@ -432,6 +434,7 @@ impl fmt::Display for Op {
             Op::VerifyClone(k) => write!(f, "i{k}.verify()"),
             Op::NoVerifyInDropClone(k) => write!(f, "i{k}.no_verify_in_drop()"),
             Op::MakeRef(k) => write!(f, "i{k}.make_ref()"),
+            Op::MakeRefClone(k) => write!(f, "i{k}.make_ref(i{k}.clone())"),
         }
     }
 }
